@@ -483,6 +483,73 @@ def run_reader_reuse(case):
 
 CLAUSES["reader_reuse"] = run_reader_reuse
 
+REWRITE_EDITS = [["none"], ["track_transpose", "3", True], ["track_transpose", "b2", False], ["track_augment"], ["bar_diminish", 0],
+                 ["note_octave_up"], ["note_set", "F#", 5], ["deepcopy_then", ["track_transpose", "5", True]]]
+
+
+def _apply_rewrite_edit(comp, edit):
+    import copy
+    how = edit[0]
+    if how == "deepcopy_then":
+        comp = copy.deepcopy(comp)
+        return _apply_rewrite_edit(comp, edit[1])
+    t = comp.tracks[0]
+    if how == "track_transpose":
+        t.transpose(edit[1], edit[2])
+    elif how == "track_augment":
+        t.augment()
+    elif how == "bar_diminish":
+        t.bars[edit[1]].diminish()
+    elif how in ("note_octave_up", "note_set"):
+        for b in t.bars:
+            for e in b.bar:
+                if e[2] is not None and len(e[2].notes):
+                    if how == "note_octave_up":
+                        e[2].notes[0].octave_up()
+                    else:
+                        e[2].notes[0].set_note(edit[1], edit[2])
+                    return comp
+    elif how != "none":
+        raise engine.HarnessError("unknown edit %r" % (edit,))
+    return comp
+
+
+def run_rewrite(case):
+    """case = [program index, edit]: a composition is written, edited in place (or deep-copied and edited) and written
+    again; the second file must read back as the edited music."""
+    S = engine.S
+    pi, edit = case
+    prog = REUSE_PROGRAMS[pi]
+    comp = Z.build_composition(prog["comp"])
+    if not comp.tracks or not any(len(b.bar) for b in comp.tracks[0].bars):
+        S.count("rewrite_skipped_nothing_to_edit")
+        return
+    with Z.midi_dir("verif-c17-") as d:
+        p1, p2 = os.path.join(d, "first.mid"), os.path.join(d, "second.mid")
+        MFO.write_Composition(p1, comp, prog["bpm"])
+        first = MFI.MIDI_to_Composition(p1)
+        comp2 = _apply_rewrite_edit(comp, edit)
+        MFO.write_Composition(p2, comp2, prog["bpm"])
+        back, bpm_back = MFI.MIDI_to_Composition(p2)
+    S.trans(4)
+    site = "written again after %r" % (edit,)
+    if bpm_back != prog["bpm"]:
+        S.problem(site + ": tempo read back", prog["bpm"], bpm_back)
+    if len(back.tracks) != len(comp2.tracks):
+        S.problem(site + ": number of tracks read back", len(comp2.tracks), len(back.tracks))
+        return
+    for ti, (tw, tr) in enumerate(zip(comp2.tracks, back.tracks)):
+        want, got = flatten_bars(tw.bars), flatten_bars(tr.bars)
+        if [(t, sorted(n.items())) for t, n in want] != [(t, sorted(n.items())) for t, n in got]:
+            S.problem("%s: track %d: flattened (ticks, pitches with channel and velocity) sequence" % (site, ti),
+                      [(t, sorted(n)) for t, n in want][:12], [(t, sorted(n)) for t, n in got][:12])
+    S.count("rewrites")
+    S.outcome((pi, edit[0]))
+
+
+CLAUSES["rewrite"] = run_rewrite
+
+
 
 NAME_SET = ["", "a", "Untitled", "<&>\"'", "Lead 1", "with  spaces ", "~!@#$%^&*()_+{}|:?", "x" * 127, "x" * 128, "y" * 200, "z" * 16384]
 
@@ -567,6 +634,9 @@ def explore(ctx):
         n = len(REUSE_PROGRAMS)
         ctx.bound("reader_reuse", "every sequence of 3 files over %d programs read by one reader object" % n)
         ctx.product("reader_reuse", list(range(n)), lambda i: ([i, j, k] for j in range(n) for k in range(n)))
+    if ctx.want("rewrite"):
+        ctx.bound("rewrite", {"programs": len(REUSE_PROGRAMS), "edits": REWRITE_EDITS})
+        ctx.serial("rewrite", [[i, e] for i in range(len(REUSE_PROGRAMS)) for e in REWRITE_EDITS])
     if ctx.want("format_words"):
         ctx.bound("format_words", "all 65536 values of the 16-bit format word of a valid file")
         ctx.product("format_words", list(range(256)), lambda hi: [hi])
